@@ -85,7 +85,20 @@ DelayLine ==
 
 ---------------------------------------------------------------------------
 (* stimuli: every (valid state, operation) pair, as a two-line execution *)
+\* constructor cases: From / from_full / FromIterator, and the documented panics on invalid raw parts / empty data
+CtorData == {<< >>} \cup UNION {[1..c -> Vals] : c \in 1..MaxCap}
+CtorStimuli ==
+     { << [ev |-> "reset", comp |-> "bounded", cfg |-> [ctor |-> k, data |-> d, start |-> 0, len |-> 0]],
+          [ev |-> "push", a |-> [v |-> New(0)]], [ev |-> "pop", a |-> [x |-> 0]] >>
+       : k \in {"from", "from_full", "from_iter"}, d \in CtorData }
+  \cup { << [ev |-> "reset", comp |-> "bounded", cfg |-> [ctor |-> "raw", data |-> d, start |-> st0, len |-> ln]] >>
+       : d \in CtorData, st0 \in {0, MaxCap}, ln \in {0, MaxCap + 1} }
+  \cup { << [ev |-> "reset", comp |-> "fixed", cfg |-> [ctor |-> k, data |-> d, first |-> 0]],
+          [ev |-> "push", a |-> [v |-> New(0)]] >>
+       : k \in {"from", "from_iter"}, d \in CtorData }
+  \cup { << [ev |-> "reset", comp |-> "fixed", cfg |-> [ctor |-> "raw", data |-> d, first |-> Len(d)]] >> : d \in CtorData }
 Stimuli ==
+  CtorStimuli \cup
   UNION { { << [ev |-> "reset", comp |-> "bounded", cfg |-> b], op >> : op \in OpsB(b) } : b \in AllBounded }
   \cup
   UNION { { << [ev |-> "reset", comp |-> "fixed", cfg |-> f], op >> : op \in OpsF(f) } : f \in AllFixed }
